@@ -253,7 +253,7 @@ class DocGen:
             for _ in range(r.randrange(1, 4)):
                 n = r.choice([1, 1, 2])
                 crit = tuple(self.comparison_on(*r.choice(cands)) for _ in range(n))
-                entries.append((crit, unit_bits * r.randrange(max(1, min_units), 6)))
+                entries.append((crit, unit_bits * r.randrange(min_units if r.random() < 0.25 else max(1, min_units), 6)))
             # a catch-all last entry so that most packets find a match
             name, t = r.choice(cands)
             if r.random() < 0.8:
